@@ -150,7 +150,13 @@ def run(c):
         "model (happens-before of Unlock/Lock) and the internals of go/types packages shared between goroutines are outside the model",
         "the API contract that Load/LoadFromIR/NewEngine/InferBuildContext do not run concurrently with Run (their roots are exempt)",
         "per-run ownership of RunnerState / rulesRunner instances is by construction in newRulesRunner (one per RunContext); the "
-        "write-site scan classifies by static owner type, element writes through local slice/map variables are listed as local-ref",
+        "write-site scan classifies by static owner type; an element write through a local slice/map/pointer variable is attributed "
+        "to the origin of the variable's value (all assignments to it in the enclosing function), and stays local-ref only when "
+        "that is a parameter or a call result; function literals count as running during Run unless they provably do not outlive "
+        "a loading-phase frame (invoked in place, call-only parameter, call-only local binding)",
+        "code of other modules that works on objects shared by all runs: gogrep v0.5.0 (MatchNode on a shared gogrep.Pattern with a "
+        "caller-owned MatcherState), regexp (documented as safe for concurrent use except Longest), go/types objects of the cached "
+        "packages -- pinned versions, not scanned; only the methods called on regexp.Regexp / gogrep.Pattern are checked",
         "hypotheses of findtype_linearizable / history_independent: the importer is a deterministic function of the name, and where "
         "the dependencies of the checked package and the importer both resolve a name they yield the same type (same source; "
         "checked on the tables of every correspondence case and, for the implementation, through xtypes identity with the host's "
